@@ -30,7 +30,7 @@ CHECKS = {
  },
  "C18": {
   "technique": "Hypothesis property-based testing / robustness fuzzing of generated test modules built from adversarial fragments, with a crash-freedom and non-overlap oracle on both drivers",
-  "text": "Modules assembled from 17 fragment kinds (unusual spellings of the call and of hand-written values, star-expressions, values given by a name, unix / dos / mixed line endings, failing and raising tests, nested snapshots replaced / shifted / only aligned, raising comparisons, unused and half-used sites, two operations on one site, changing nested structure) are run with every approved set; collecting, applying and writing must not raise, recorded replacements must be pairwise disjoint, results must parse; real sessions (started in the project, its parent or a sibling directory) must end without INTERNALERROR or traceback and with exit status 0/1. Exploration.",
+  "text": "Modules assembled from 17 fragment kinds (unusual spellings of the call and of hand-written values, star-expressions, values given by a name, unix / dos / mixed line endings, failing and raising tests, nested snapshots replaced / shifted / only aligned, raising comparisons, unused and half-used sites, two operations on one site, changing nested structure) are run with every approved set; collecting, applying and writing must not raise, recorded replacements must be pairwise disjoint, results must parse; real sessions (started in the project, its parent or a sibling directory, or reaching the file through a symlink; with outsourced values) must end without INTERNALERROR or traceback and with exit status 0/1. Exploration.",
   "note": "fragments stay inside documented usage (`in` on lists, [key] on dict displays); the non-overlap check is made on the recorder independently of the internal assert",
  },
  "C10": {
@@ -40,7 +40,7 @@ CHECKS = {
  },
  "C20": {
   "technique": "Hypothesis property-based testing with an independent formatter oracle (the harness invokes black with a Mode it builds itself from the generated pyproject options) and an idempotence side-check that attributes instabilities to the formatter",
-  "text": "Generated clean files (optionally holding code whose layout depends on the python versions black infers) under generated [tool.black] options receive change sets that force re-wrapping; the result must be a fixed point of black under the same options, unless black itself is not idempotent on the text handed to the whole-file step (captured), which is counted separately. Unclean files must not be re-formatted as a whole (bytes outside all arguments unchanged). A real-session arm starts pytest in the parent or in a sibling directory of the project. Exploration.",
+  "text": "Generated clean files (optionally holding code whose layout depends on the python versions black infers) under generated [tool.black] options receive change sets that force re-wrapping; the result must be a fixed point of black under the same options, unless black itself is not idempotent on the text handed to the whole-file step (captured), which is counted separately. Unclean files must not be re-formatted as a whole (bytes outside all arguments unchanged). Black runs through its API or as a format-command (quiet, or also writing to stderr). A real-session arm starts pytest in the parent or in a sibling directory of the project, or in a workspace whose root pyproject.toml configures black. Exploration.",
   "note": "black 26.5.1; the in-process driver runs with the project directory as cwd like pytest does (black resolves its configuration from the cwd)",
  },
  "C03": {
@@ -50,17 +50,17 @@ CHECKS = {
  },
  "C16": {
   "technique": "generated-input differential testing across separate interpreter processes (PYTHONHASHSEED x formatter configuration x set construction history); batch generated with Hypothesis",
-  "text": "A Hypothesis-generated batch of set/frozenset/dict-rich values and of strings with blanks / quotes at their ends is created (or fixed in a snapshot holding another value of the same shape) by one interpreter process per (hash seed, formatter) cell, each value in three construction histories; texts must be byte-identical across seeds and histories and have the same syntax tree and value across black / no black / format-command. Exploration.",
+  "text": "A Hypothesis-generated batch of set/frozenset/dict-rich values (incl. list / set / frozenset subclasses) and of strings with blanks / quotes at their ends is created (or fixed in a snapshot holding another value of the same shape) by one interpreter process per (hash seed, formatter) cell, each value in three construction histories; texts must be byte-identical across seeds and histories and have the same syntax tree and value across black / no black / format-command. Exploration.",
   "note": "hash seeds 0-5 and two random ones, four formatter configurations, black 26.5.1 only; dict insertion order is treated as part of the value",
  },
  "C14": {
   "technique": "Hypothesis property-based testing of generated multi-site programs with scripted interleavings against an independent per-site aggregation; per-site disjoint value ranges make leakage visible",
-  "text": "3-12 sites in 7 placement styles (incl. two calls on one line, lambdas on one line, helpers, comprehensions, module-level names shared by tests, objects compared only after the call was evaluated again, two files) are evaluated in a generated interleaving; after create and after a second fix+trim session every site must hold exactly the aggregation of its own observations and nothing outside its value range. A second arm changes the hand-written argument between evaluations and demands UsageError; a third runs parametrized and shared-site tests in real pytest sessions. Exploration.",
+  "text": "3-12 sites in 7 placement styles (incl. two calls on one line, lambdas on one line, helpers, comprehensions, module-level names shared by tests, objects compared only after the call was evaluated again, two files) are evaluated in a generated interleaving; after create and after a second fix+trim session every site must hold exactly the aggregation of its own observations and nothing outside its value range. An arm over conditional inner snapshot() calls checks that every inner call ends with the value of its own branch. A further arm changes the hand-written argument between evaluations (also to an equal value of a subclass type) and demands UsageError; a third runs parametrized and shared-site tests in real pytest sessions. Exploration.",
   "note": "id(code) reuse after garbage collection cannot be forced from a test program and is not covered",
  },
  "C17": {
   "technique": "Hypothesis property-based testing of mutation schedules against an aliasing-free model (the harness replays the schedule on its own objects and deep-copies at comparison time)",
-  "text": "Generated schedules interleave comparisons on 1-3 sites with mutations (append, clear, item/attribute assignment, nested) of 1-3 shared mutable variables; the values in the rewritten file after create, and after a second fix+trim session on a changed schedule, must equal the aggregation of the harness-recorded copies; values whose deep copy differs (identity eq, lossy __deepcopy__, also nested; values that deepcopy returns unchanged but that are not equal to themselves such as nan) must raise UsageError, also against a snapshot that already holds a value, and leave the site unwritten. Exploration.",
+  "text": "Generated schedules interleave comparisons on 1-3 sites with mutations (append, clear, item/attribute assignment, nested) of 1-3 shared mutable variables; the values in the rewritten file after create, and after a second fix+trim session on a changed schedule, must equal the aggregation of the harness-recorded copies; values whose deep copy differs (identity eq, lossy __deepcopy__, also nested; values that deepcopy returns unchanged but that are not equal to themselves such as nan) must raise UsageError, also against a snapshot that already holds a value; a value for which deepcopy raises must never be recorded in its later, mutated state; and leave the site unwritten. Exploration.",
   "note": "== sites only see equal values by construction; the category model of C05 aggregates the recorded copies",
  },
  "C06": {
@@ -90,7 +90,7 @@ CHECKS = {
  },
  "C02": {
   "technique": "Hypothesis property-based testing: edit-script generated (previous text, new value) pairs, noisy renderer, oracle = re-execution of the rewritten module with inline-snapshot inactive",
-  "text": "Generated programs with 1-4 sites whose previous argument is a noisy rendering of an edit-script mutation of the observed value (or missing); one in-process run with create+fix; the rewritten module must pass when re-executed with inline-snapshot inactive and every site argument must satisfy the observed comparisons. Exploration.",
+  "text": "Generated programs with 1-4 sites whose previous argument is a noisy rendering of an edit-script mutation of the observed value (or missing); one in-process run with create+fix; the rewritten module must pass when re-executed with inline-snapshot inactive and every site argument must satisfy the observed comparisons; a guarded comparison that raises may precede everything; a second arm repairs an outer snapshot whose elements are inner snapshots in every state (empty, wrong, noisy, right). Exploration.",
   "note": "no user-controlled parts in the previous text; bounded value size; every noisy rendering is validated by the harness (eval == intended previous value) before use",
  },
  "C01": {
